@@ -348,6 +348,9 @@ class StmtMixin:
             self._star_counter[it.path()] = self._star_counter.get(it.path(), 0) + 1
             n = self._star_counter[it.path()]
             label = "*" if n == 1 else f"*{n}"
+            xf = getattr(it, "xform", None)
+            if xf is not None:
+                return Transf(xf[0], it.elem(label), xf[1]), it.path()
             return it.elem(label), it.path()
         if isinstance(it, SColl):
             # iteration order of a set of strings follows the hash seed of the process
